@@ -148,7 +148,10 @@ class C13(Plugin):
     def impl(self, case):
         from html5lib.filters.optionaltags import Filter
         toks = [from_json(t) for t in case["toks"]]
-        out = list(Filter(toks))
+        f = Filter(toks)
+        out = list(f)
+        # a filter over a re-iterable source can be iterated again: the second pass removes the same tokens
+        self._second_same = [id(t) for t in f] == [id(t) for t in out]
         kept = set(id(t) for t in out)          # the filter yields the source token objects themselves
         return [enc_tokens(out), [1 if id(t) in kept else 0 for t in toks]]
 
@@ -157,6 +160,8 @@ class C13(Plugin):
         tin = enc_tokens([from_json(t) for t in toks])
         out, flags = out
         v = []
+        if not getattr(self, "_second_same", True):
+            v.append(("second-iteration-differs", "iterating the same Filter object again yields other tokens"))
         if [a for a, f in zip(tin, flags) if f] != out:
             v.append(("output-not-the-kept-subsequence", ""))
         for i, f in enumerate(flags):
